@@ -117,22 +117,28 @@ def lean_phase(pid, tier, log):
 
 
 def build_harness(features, log):
-    """features: None -> default. returns path of the binary or None"""
+    """features: None -> default; `release:<features>` -> release profile. returns path of the binary or None"""
     tgt = os.path.join(HARNESS, "target")
     cmd = ["cargo", "build", "--offline", "--quiet"]
     name = "default"
+    prof = "debug"
     if features is not None:
-        cmd += ["--no-default-features", "--features", features]
-        name = features.replace(",", "_")
+        f = features
+        if f.startswith("release:"):
+            f = f[len("release:"):]
+            prof = "release"
+            cmd += ["--release"]
+        cmd += ["--no-default-features", "--features", f]
+        name = features.replace(",", "_").replace(":", "_")
         tgt = os.path.join(HARNESS, "target", "cfg_" + name)
         cmd += ["--target-dir", tgt]
     if os.environ.get("VERIF_NO_CARGO"):   # debugging aid only: reuse the existing binary
-        return os.path.join(tgt, "debug", "harness")
+        return os.path.join(tgt, prof, "harness")
     rc, out = sh(cmd, cwd=HARNESS, env={"RUSTFLAGS": "--cfg rrtk_verif"}, timeout=3000)
     log.append(out[-3000:])
     if rc != 0:
         return None
-    return os.path.join(tgt, "debug", "harness")
+    return os.path.join(tgt, prof, "harness")
 
 
 def run_prog(cmd, lines, cwd=None):
@@ -223,6 +229,7 @@ def main():
         hbin = build_harness(feat, log)
         cname = feat or "default"
         corr["configs"].append(cname)
+        cases.CONFIG_CHECKED[cname] = (drv_arg.split()[0] == "chk")
         if hbin is None:
             violations.append({"kind": "harness build failed (correspondence cannot be established)", "config": cname,
                                "found_input": False, "log": log[-1][-1500:]})
@@ -231,7 +238,7 @@ def main():
             violations.append({"kind": "driver missing (lake build failed)", "found_input": False})
             break
         rc1, impl, err1 = run_prog([hbin], lines)
-        rc2, model, err2 = run_prog([driver, drv_arg], lines)
+        rc2, model, err2 = run_prog([driver] + drv_arg.split(), lines)
         if len(impl) != len(lines) or len(model) != len(lines):
             violations.append({"kind": "harness/driver crashed or lost lines", "config": cname, "found_input": False,
                                "impl_lines": len(impl), "model_lines": len(model), "n": len(lines),
